@@ -126,6 +126,9 @@ func Pipe() (Conn, Conn) {
 	return a, b
 }
 
+// Peer returns the other end of the connection.
+func (c *MemConn) Peer() *MemConn { return c.peer }
+
 // Ops returns how many Read/Write calls this end has started.
 func (c *MemConn) Ops() int { return c.ops }
 
